@@ -378,6 +378,31 @@ def run_property(pid, modname, tier, seed, jobs, level="exploration", assumption
     errors = []
     known_hit = {}
     os.makedirs(os.path.join(OUT_DIR, "replays"), exist_ok=True)
+
+    # regression tier: saved cases (confirmed defects, shrunk failures of seeded changes) are replayed on every run
+    corpus_dir = os.path.join(VERIF_DIR, "corpus", pid)
+    corpus_n = 0
+    if os.path.isdir(corpus_dir):
+        table = {s.name: s for s in subs}
+        for fn in sorted(os.listdir(corpus_dir)):
+            if not fn.endswith(".json"):
+                continue
+            path = os.path.join(corpus_dir, fn)
+            try:
+                payload = json.load(open(path))
+                sub = table.get(payload["sub"])
+                if sub is None:
+                    close = [s for n, s in table.items() if n.startswith(payload["sub"]) or payload["sub"].startswith(n)]
+                    sub = (close or subs)[0]
+                corpus_n += 1
+                sub.oracle(payload["case"])
+            except KnownFinding as k:
+                known_hit[k.fid] = known_hit.get(k.fid, 0) + 1
+                known_hit.setdefault("_msg_" + k.fid, k.msg)
+            except Violation as v:
+                violations.append((f"corpus:{fn}", path, str(v)))
+            except Exception:
+                errors.append((f"corpus:{fn}", traceback.format_exc()))
     for s in subs:
         m = merged[s.name]
         if m["error"]:
@@ -423,6 +448,7 @@ def run_property(pid, modname, tier, seed, jobs, level="exploration", assumption
                        for s in subs},
         "known_findings_hit": {k: v for k, v in known_hit.items() if not k.startswith("_msg_")},
         "excluded_by_known_finding": sum(v for k, v in known_hit.items() if not k.startswith("_msg_")),
+        "corpus_cases_replayed": corpus_n,
         "repo": REPO,
     }
     extra = getattr(mod, "evidence_extra", None)
@@ -445,7 +471,7 @@ def run_property(pid, modname, tier, seed, jobs, level="exploration", assumption
     for name, path, msg in violations:
         print(f"VIOLATION property={pid} replay={path}")
         print(f"  sub-check {name}: {msg[:1500]}")
-        for extra in (merged[name]["failure"].get("also") or [])[:25]:
+        for extra in ((merged.get(name) or {}).get("failure") or {}).get("also", [])[:25]:
             print(f"    also: {extra}")
     for name, err in errors:
         print(f"HARNESS-ERROR property={pid} sub-check {name}:\n{err}", file=sys.stderr)
